@@ -117,15 +117,15 @@ func runC17(c *core.Ctx) {
 		// two construction paths: the constructor and the parser over the reference encoding
 		var addrs []struct {
 			path string
-			ra   router_address.RouterAddress
+			ra   *router_address.RouterAddress
 		}
 		enc := []byte(fmt.Sprintf("%q", opts))
 		c.Eval(1)
 		if ra, err := router_address.NewRouterAddress(byte(r.Pick(256)), timeZero(), style, opts); err == nil && ra != nil {
 			addrs = append(addrs, struct {
 				path string
-				ra   router_address.RouterAddress
-			}{"router_address.NewRouterAddress", *ra})
+				ra   *router_address.RouterAddress
+			}{"router_address.NewRouterAddress", ra})
 		}
 		var m rm.Mapping
 		for k, v := range opts {
@@ -136,10 +136,11 @@ func runC17(c *core.Ctx) {
 		}
 		model := rm.RouterAddress{Cost: 5, Style: []byte(style), Options: m}
 		if pa, _, err := router_address.ReadRouterAddress(model.Encode()); err == nil {
+			pa := pa
 			addrs = append(addrs, struct {
 				path string
-				ra   router_address.RouterAddress
-			}{"router_address.ReadRouterAddress", pa})
+				ra   *router_address.RouterAddress
+			}{"router_address.ReadRouterAddress", &pa})
 		}
 		for _, a := range addrs {
 			a := a
@@ -153,7 +154,7 @@ func runC17(c *core.Ctx) {
 		if c17Prev != nil && len(addrs) > 0 && r.Chance(1, 3) {
 			pv := c17Prev
 			a := addrs[r.Pick(len(addrs))]
-			ra := a.ra
+			ra := a.ra // the SAME value the accessors were just called on
 			if nm, err := data.GoMapToMapping(pv.opts); err == nil && nm != nil {
 				ra.TransportOptions = nm
 				enc2 := []byte(fmt.Sprintf("%q -> %q", opts, pv.opts))
@@ -175,7 +176,7 @@ func runC17(c *core.Ctx) {
 	})
 }
 
-func c17Check(c *core.Ctx, path string, ra router_address.RouterAddress, opts map[string]string, hasHost bool, host string, hasPort bool, port string, hasS bool, sVal string, hasI bool, iVal string, enc []byte) {
+func c17Check(c *core.Ctx, path string, ra *router_address.RouterAddress, opts map[string]string, hasHost bool, host string, hasPort bool, port string, hasS bool, sVal string, hasI bool, iVal string, enc []byte) {
 	sh := gen.Shape{"path": path}
 	// ---- host
 	fam, addr := rm.IPLiteral(host)
